@@ -15,7 +15,9 @@
 //verif:include cose_sign_env.go
 //verif:harness H_C16_cose_sign_attrs
 //verif:harness H_C16_cose_sign_signer
-//verif:harness H_C16_cose_sign_full thorough-only
+// (H_C16_cose_sign_full - arbitrary signer x two attributes of all key types - is NOT registered: ~7*10^5 paths per
+// 6 minutes with no end in sight; the thorough tier is the attribute harness with all key types for both attributes
+// plus the signer harness with all key types for its one attribute)
 package cose
 
 import (
